@@ -15,6 +15,9 @@ type vUserKey struct{}
 // vParentCtx is the caller's context: carries one user value, a deadline, a Done channel.
 type vParentCtx struct {
 	userVal interface{}
+	// the caller's context may already carry a gcpContext: a call issued on the context of a
+	// stream created through the stream interceptor, or from inside another intercepted call
+	staleGcp *gcpContext
 	dl      time.Time
 	hasDl   bool
 	done    chan struct{}
@@ -25,6 +28,9 @@ func (c *vParentCtx) Value(k interface{}) interface{} {
 	if _, ok := k.(vUserKey); ok {
 		return c.userVal
 	}
+	if k == interface{}(gcpKey) && c.staleGcp != nil {
+		return c.staleGcp
+	}
 	return nil
 }
 func (c *vParentCtx) Deadline() (time.Time, bool) { return c.dl, c.hasDl }
@@ -34,7 +40,11 @@ func (c *vParentCtx) Err() error                  { return c.err }
 var _ context.Context = (*vParentCtx)(nil)
 
 func vMkParent() *vParentCtx {
-	return &vParentCtx{userVal: verifStr("userVal"), dl: verifTime("parentDeadline"), hasDl: verifBool("parentHasDeadline"), done: make(chan struct{})}
+	p := &vParentCtx{userVal: verifStr("userVal"), dl: verifTime("parentDeadline"), hasDl: verifBool("parentHasDeadline"), done: make(chan struct{})}
+	if verifBool("parentCarriesGcpContext") {
+		p.staleGcp = &gcpContext{reqMsg: &verifMsg{}}
+	}
+	return p
 }
 
 // ---- unary interceptor: transparent, hands request and reply to the picker ----
